@@ -551,6 +551,9 @@ var asaRoutes = []string{
 	"route outside 10.20.0.0 255.255.0.0 10.0.0.2",
 	"route inside 10.20.30.0 255.255.255.0 10.1.1.9",
 	"ipv6 route outside 1000::/64 2000::1",
+	// same network address as another route, other mask
+	"route outside 0.0.0.0 128.0.0.0 10.0.0.3",
+	"route outside 10.20.0.0 255.255.255.0 10.0.0.3",
 }
 
 var iosRoutes = []string{
@@ -560,6 +563,9 @@ var iosRoutes = []string{
 	"ip route 10.20.0.0 255.255.0.0 10.0.0.2",
 	"ip route 10.20.30.0 255.255.255.0 10.1.1.9",
 	"ip route vrf A 10.20.0.0 255.255.0.0 10.0.0.1",
+	// same network address as another route, other mask
+	"ip route 0.0.0.0 128.0.0.0 10.0.0.3",
+	"ip route 10.20.0.0 255.255.255.0 10.0.0.3",
 }
 
 // validRouteSet: ASA allows one route per destination on the device.
@@ -660,7 +666,7 @@ func init() {
 				"ACL semantics: first match, implicit deny; joined two-command lines are one step (sent in one packet to the device)",
 				"packet universe 3 sources x 2 destinations x {tcp/22,tcp/80,udp/53}; no object-groups (excluded by the statement)",
 			},
-			Bounds: map[string]any{"quick": "len<=3 over 7 lines", "thorough": "len<=4 over 8 lines", "routes": "all subset pairs of 6 routes"},
+			Bounds: map[string]any{"quick": "len<=3 over 7 lines", "thorough": "len<=4 over 8 lines", "routes": "all subset pairs of 8 routes (ASA, IOS), 9 x 7 routes (Linux), incl. prefixes that share the network address"},
 		}
 	}, 150*time.Second, 40*time.Minute)
 }
